@@ -17,7 +17,8 @@ Record case := {
   c_cfg : xcfg;
   c_ua : string;
   c_widen : list (N * N);      (* float32 bits -> float64 bits, as converted by Go, for the floats of this case *)
-  c_events : list ecase
+  c_events : list ecase;
+  c_deliv : list deliv       (* delivery scenario run on the real DirectTransmission (usually none) *)
 }.
 
 (* ---------- model vs implementation ---------- *)
@@ -68,4 +69,5 @@ End Mon.
 Definition check (c : case) : codes :=
   let w := widen_of (c_widen c) in
   flat_map (fun e => (if model_agrees c e then [] else [code_mismatch])
-                     ++ event_monitor w (c_path c) (c_cfg c) (c_ua c) e) (c_events c).
+                     ++ event_monitor w (c_path c) (c_cfg c) (c_ua c) e) (c_events c)
+  ++ flat_map deliv_codes (c_deliv c).
